@@ -305,6 +305,20 @@ func partNames(a *vh.Args) {
 
 func partMessages(a *vh.Args) {
 	e := venum.New("dns-messages", a)
+	// names that each extend the previous one: the encoder's name compression then points into a name that itself
+	// ends in a pointer, one level deeper per record; every depth 1..16 (the decoder bounds the pointers it follows)
+	if a.ShardI == 0 {
+		for depth := 1; depth <= 16; depth++ {
+			e.Case()
+			var rrs []dns.RR
+			var name dns.Name
+			for k := 0; k < depth; k++ {
+				name = append(dns.Name{[]byte(fmt.Sprintf("x%d", k))}, name...)
+				rrs = append(rrs, dns.RR{Name: append(dns.Name{}, name...), Type: 16, Class: 1, TTL: 60, Data: []byte{byte(k)}})
+			}
+			roundtrip(e, fmt.Sprintf("msg;name-chain;records=%d", depth), &dns.Message{ID: uint16(depth), Flags: 0x8400, Answer: rrs}, "message-roundtrip:name-chain")
+		}
+	}
 	names := []dns.Name{
 		{[]byte("a"), []byte("example"), []byte("com")},
 		{[]byte("A"), []byte("example"), []byte("com")},
